@@ -14,6 +14,9 @@ from sqlglot.helper import first, merge_ranges, while_changing
 from sqlglot.optimizer.annotate_types import TypeAnnotator
 from sqlglot.optimizer.scope import find_all_in_scope, walk_in_scope
 from sqlglot.schema import ensure_schema
+from sqlglot import _verif
+
+_VERIF = _verif.ENABLED
 
 
 if t.TYPE_CHECKING:
@@ -94,7 +97,13 @@ def catch(*exceptions):
 def annotate_types_on_change(func):
     @wraps(func)
     def _func(self, expression: exp.Expr, *args, **kwargs) -> exp.Expr | None:
+        if _VERIF:
+            _verif.emit("rule_pre", rule=func.__name__, node=expression)
+
         new_expression: exp.Expr | None = func(self, expression, *args, **kwargs)
+
+        if _VERIF:
+            _verif.emit("rule_post", rule=func.__name__, node=new_expression)
 
         if new_expression is None:
             return new_expression
